@@ -313,20 +313,36 @@ Lemma deferred_wait : forall s r eos t,
   deferred_lost_segment_handling s = (s, Ok tt).
 Proof.
   intros s r eos t Hdef Hr Heof Hmiss Ht Hto. unfold deferred_lost_segment_handling, now.
-  rewrite bind_gp, Hdef. cbn [negb]. rewrite bind_rcfg, Hr, bind_gp, Heof, bind_gp, bind_gp.
+  rewrite bind_gp, Hdef. cbn [negb]. rewrite bind_gp.
+  destruct (p_disp (d_p s) =? DISP_CANCELED); [reflexivity|].
+  rewrite bind_rcfg, Hr, bind_gp, Heof, bind_gp, bind_gp.
   rewrite (missing_cond s Hmiss). rewrite bind_gp, bind_gets, Ht.
   unfold now_d in Hto. rewrite Hto. cbn [negb]. rewrite bind_ret. reflexivity.
 Qed.
 
+(* F35 repair: a cancelled transaction is left alone by the deferred procedure (nothing requested, nothing verified,
+   the cancel condition stands) *)
+Lemma deferred_cancelled_does_nothing : forall s,
+  p_deferred (d_p s) = true -> p_disp (d_p s) = DISP_CANCELED ->
+  deferred_lost_segment_handling s = (s, Ok tt).
+Proof.
+  intros s Hdef Hc. unfold deferred_lost_segment_handling.
+  rewrite bind_gp, Hdef. cbn [negb]. rewrite bind_gp, Hc. reflexivity.
+Qed.
+
+Lemma not_cancelled : forall s, p_disp (d_p s) <> DISP_CANCELED -> (p_disp (d_p s) =? DISP_CANCELED) = false.
+Proof. intros s H. apply Z.eqb_neq. exact H. Qed.
+
 Lemma nothing_missing : forall s r eos s1 b,
-  p_deferred (d_p s) = true -> p_rcfg (d_p s) = Some r -> p_file_size_eof (d_p s) = Some eos ->
+  p_deferred (d_p s) = true -> p_disp (d_p s) <> DISP_CANCELED ->
+  p_rcfg (d_p s) = Some r -> p_file_size_eof (d_p s) = Some eos ->
   p_tracker (d_p s) = [] -> p_md_missing (d_p s) = false ->
   checksum_verify s = (s1, Ok b) ->
   exists s', deferred_lost_segment_handling s = (s', Ok tt) /\
     d_queue s' = d_queue s1 /\ d_step s' = DS_TRANSFER_COMPLETION /\ p_deferred (d_p s') = false.
 Proof.
-  intros s r eos s1 b Hdef Hr Heof Htr Hmd Hck. unfold deferred_lost_segment_handling.
-  rewrite bind_gp, Hdef. cbn [negb]. rewrite bind_rcfg, Hr, bind_gp, Heof, bind_gp, bind_gp.
+  intros s r eos s1 b Hdef Hnc Hr Heof Htr Hmd Hck. unfold deferred_lost_segment_handling.
+  rewrite bind_gp, Hdef. cbn [negb]. rewrite bind_gp, (not_cancelled s Hnc). rewrite bind_rcfg, Hr, bind_gp, Heof, bind_gp, bind_gp.
   rewrite Htr, Hmd. change (zlen (@nil seg) =? 0) with true. cbn [negb andb].
   rewrite (bind_ok _ _ _ _ _ _ _ Hck). rewrite bind_set_step.
   eexists. split; [reflexivity|]. cbn. repeat split; reflexivity.
@@ -463,7 +479,7 @@ Qed.
 
 (* C06: one issue of the deferred procedure *)
 Lemma deferred_issue : forall s r eos maxn,
-  p_deferred (d_p s) = true -> p_rcfg (d_p s) = Some r -> p_file_size_eof (d_p s) = Some eos ->
+  p_deferred (d_p s) = true -> p_disp (d_p s) <> DISP_CANCELED -> p_rcfg (d_p s) = Some r -> p_file_size_eof (d_p s) = Some eos ->
   (p_tracker (d_p s) <> [] \/ p_md_missing (d_p s) = true) ->
   (match p_proc_timer (d_p s) with
    | None => True
@@ -477,8 +493,8 @@ Lemma deferred_issue : forall s r eos maxn,
     p_tracker (d_p s') = p_tracker (d_p s) /\ d_step s' = d_step s /\ fs_d s' = fs_d s /\
     p_nak_counter (d_p s') = (match p_proc_timer (d_p s) with None => p_nak_counter (d_p s) | Some _ => p_nak_counter (d_p s) + 1 end).
 Proof.
-  intros s r eos maxn Hdef Hr Heof Hmiss Htimer Hm H1. unfold deferred_lost_segment_handling.
-  rewrite bind_gp, Hdef. cbn [negb]. rewrite bind_rcfg, Hr, bind_gp, Heof, bind_gp, bind_gp.
+  intros s r eos maxn Hdef Hnc Hr Heof Hmiss Htimer Hm H1. unfold deferred_lost_segment_handling.
+  rewrite bind_gp, Hdef. cbn [negb]. rewrite bind_gp, (not_cancelled s Hnc). rewrite bind_rcfg, Hr, bind_gp, Heof, bind_gp, bind_gp.
   rewrite (missing_cond s Hmiss). rewrite bind_gp. unfold now at 1. rewrite bind_gets.
   destruct (p_proc_timer (d_p s)) as [t|] eqn:Et.
   - destruct Htimer as [Hto Hcnt]. unfold now_d in Hto. rewrite Hto. cbn [negb].
